@@ -128,3 +128,15 @@ def only_on_edge(fn, sw_block, good, bad, site):
     if site not in fn.reachable_from(good, avoid=[sw_block]) and site != good:
         return False
     return site not in fn.reachable_from(bad, avoid=[sw_block])
+
+
+def enum_edges(sw, variants=2):
+    """{discriminant value: target block} of a switch on a two-variant enum (Option: 0 None / 1 Some; Result: 0 Ok / 1 Err),
+    whichever way the match was written: `if let` lists one value and uses `otherwise` for the other, a full `match` lists
+    both and leaves `otherwise` unreachable."""
+    tg = {v: b for v, b in sw['targets']}
+    out = dict(tg)
+    missing = [str(i) for i in range(variants) if str(i) not in tg]
+    if len(missing) == 1:
+        out[missing[0]] = sw['otherwise']
+    return out
